@@ -72,7 +72,8 @@ def handle (args : List String) : String :=
     | some v, some p =>
       if isPlainDecimal v then out (cellFormattedValue (.number v) p) else "bad-op"
     | _, _ => "bad-op"
-  | ["txt", v, p] =>
+  | ["txt", v, p] | ["txtf", v, p] | ["txtr", v, p] =>
+    -- a plain text cell, a formula cell with a cached text result, a rich-text cell: all are text to get_formatted_value
     match decodeStr v, decodeStr p with
     | some v, some p => out (cellFormattedValue (.text v) p)
     | _, _ => "bad-op"
